@@ -489,3 +489,133 @@ def inline_local_closures(fn: ast.FunctionDef):
 
         fn.body = splice(fn.body)
     return ast.fix_missing_locations(fn)
+
+
+def split_skip_guards(fn: ast.FunctionDef):
+    """Inside loop bodies: `if A or B: continue` -> `if A: continue` / `if B: continue`, and `if not C: continue ; REST` (REST = the
+    remainder of the loop body) -> `if C: REST`. Both are the same control flow written differently. Returns a rewritten deep copy."""
+    fn = copy.deepcopy(fn)
+
+    def only_continue(st):
+        return isinstance(st, ast.If) and len(st.body) == 1 and isinstance(st.body[0], ast.Continue) and not st.orelse
+
+    def rewrite(body):
+        out = []
+        for st in body:
+            if only_continue(st) and isinstance(st.test, ast.BoolOp) and isinstance(st.test.op, ast.Or):
+                out.extend(ast.If(test=v, body=[ast.Continue()], orelse=[]) for v in st.test.values)
+            else:
+                out.append(st)
+        for k, st in enumerate(out):
+            if only_continue(st) and isinstance(st.test, ast.UnaryOp) and isinstance(st.test.op, ast.Not) and isinstance(st.test.operand, ast.Compare) and out[k + 1:]:
+                return out[:k] + [ast.If(test=st.test.operand, body=rewrite(out[k + 1:]), orelse=[])]
+        return out
+
+    for n in ast.walk(fn):
+        if isinstance(n, (ast.For, ast.While)):
+            n.body = rewrite(n.body)
+    return ast.fix_missing_locations(fn)
+
+
+def expand_maintained_products(fn: ast.FunctionDef):
+    """A vector of products kept up to date instead of recomputed:
+
+        P = X[i].clone()            # w is the i-th unit vector here, so P == X @ w (X symmetric: X[i] is column i)
+        for j in ...:
+            ... P[j] ...            # read
+            w[j] -= c
+            P -= c * X[j]           # keeps P == X @ w
+
+    is read as `X[j] @ w` wherever `P[j]` is loaded; the bookkeeping statements are dropped. Applied only when every in-place
+    change of w inside the loop is `w[j] -= c` paired, in the same block, with `P -= c * X[j]` for the same c and j, P and w are
+    changed nowhere else in the loop, and w is set to the i-th unit vector (`w = zeros(..); w[i] = 1`) next to the initialisation
+    of P. The symmetry of X is the caller's concern (the Gramian). Returns a rewritten deep copy (unchanged if the idiom is absent)."""
+    fn = copy.deepcopy(fn)
+    txt = lambda e: ast.unparse(e)
+
+    def strip_clone(e):
+        while isinstance(e, ast.Call) and isinstance(e.func, ast.Attribute) and e.func.attr in ("clone", "detach", "contiguous") and not e.args:
+            e = e.func.value
+        return e
+
+    for outer in [n for n in ast.walk(fn) if isinstance(n, ast.For)]:
+        for k, st in enumerate(outer.body):
+            if not (isinstance(st, ast.Assign) and len(st.targets) == 1 and isinstance(st.targets[0], ast.Name)):
+                continue
+            P = st.targets[0].id
+            src = strip_clone(st.value)
+            if not (isinstance(src, ast.Subscript) and isinstance(src.slice, ast.Name) and isinstance(src.value, ast.Name)):
+                continue
+            X, i = src.value.id, src.slice.id
+            inner = [s2 for s2 in outer.body[k + 1:] if isinstance(s2, ast.For)]
+            if len(inner) != 1 or not isinstance(inner[0].target, ast.Name):
+                continue
+            loop, j = inner[0], inner[0].target.id
+            # updates of P inside the loop
+            p_upd = [(blk, s2) for blk in _blocks(loop) for s2 in blk if isinstance(s2, ast.AugAssign) and isinstance(s2.op, ast.Sub) and isinstance(s2.target, ast.Name) and s2.target.id == P]
+            p_other = [n for n in ast.walk(loop) if isinstance(n, ast.Name) and n.id == P and isinstance(n.ctx, ast.Store)]
+            if not p_upd or len(p_other) != len(p_upd):
+                continue
+            ok, w = True, None
+            for blk, s2 in p_upd:
+                v = s2.value
+                if not (isinstance(v, ast.BinOp) and isinstance(v.op, ast.Mult)):
+                    ok = False
+                    break
+                c, row = (v.left, v.right) if txt(v.right) == f"{X}[{j}]" else ((v.right, v.left) if txt(v.left) == f"{X}[{j}]" else (None, None))
+                if c is None:
+                    ok = False
+                    break
+                mate = [s3 for s3 in blk if isinstance(s3, ast.AugAssign) and isinstance(s3.op, ast.Sub) and isinstance(s3.target, ast.Subscript) and isinstance(s3.target.value, ast.Name)
+                        and txt(s3.target.slice) == j and txt(s3.value) == txt(c)]
+                if len(mate) != 1 or (w is not None and mate[0].target.value.id != w):
+                    ok = False
+                    break
+                w = mate[0].target.value.id
+            if not ok or w is None:
+                continue
+            # w is changed only by those paired statements inside the loop ...
+            w_stores = [n for n in ast.walk(loop) if (isinstance(n, ast.Subscript) and isinstance(n.value, ast.Name) and n.value.id == w and isinstance(n.ctx, ast.Store))
+                        or (isinstance(n, ast.Name) and n.id == w and isinstance(n.ctx, ast.Store))]
+            if len(w_stores) != len(p_upd):
+                continue
+            # ... and is the i-th unit vector when P is initialised
+            before = outer.body[:outer.body.index(loop)]
+            unit = any(isinstance(s2, ast.Assign) and len(s2.targets) == 1 and txt(s2.targets[0]) == f"{w}[{i}]" and isinstance(s2.value, ast.Constant) and s2.value.value == 1 for s2 in before) and \
+                any(isinstance(s2, ast.Assign) and len(s2.targets) == 1 and txt(s2.targets[0]) == w and isinstance(s2.value, ast.Call) and txt(s2.value.func).split(".")[-1] in ("zeros", "zeros_like", "new_zeros")
+                    for s2 in before)
+            if not unit:
+                continue
+
+            class R(ast.NodeTransformer):
+                def visit_Subscript(self, n):
+                    if isinstance(n.value, ast.Name) and n.value.id == P and isinstance(n.ctx, ast.Load) and not isinstance(n.slice, (ast.Slice, ast.Tuple)):
+                        return ast.BinOp(left=ast.Subscript(value=ast.Name(id=X, ctx=ast.Load()), slice=self.visit(n.slice), ctx=ast.Load()), op=ast.MatMult(), right=ast.Name(id=w, ctx=ast.Load()))
+                    self.generic_visit(n)
+                    return n
+
+            drop = {id(s2) for _, s2 in p_upd}
+            sub_values = {id(n.value) for n in ast.walk(loop) if isinstance(n, ast.Subscript) and isinstance(n.ctx, ast.Load) and not isinstance(n.slice, (ast.Slice, ast.Tuple))}
+            whole = [n for s2 in ast.walk(loop) if isinstance(s2, ast.stmt) and id(s2) not in drop and not isinstance(s2, (ast.For, ast.While, ast.If, ast.With, ast.Try))
+                     for n in ast.walk(s2) if isinstance(n, ast.Name) and n.id == P and isinstance(n.ctx, ast.Load) and id(n) not in sub_values]
+            whole += [n for s2 in ast.walk(loop) if isinstance(s2, (ast.If, ast.While)) for n in ast.walk(s2.test) if isinstance(n, ast.Name) and n.id == P and id(n) not in sub_values]
+            after = outer.body[outer.body.index(loop) + 1:]
+            if whole or any(isinstance(n, ast.Name) and n.id == P for s2 in after for n in ast.walk(s2)):
+                continue  # P is read as a whole somewhere, or after the loop: not this idiom
+            for blk in _blocks(loop):
+                blk[:] = [s2 for s2 in blk if id(s2) not in drop] or [ast.Pass()]
+            R().visit(loop)
+            outer.body.remove(st)
+            return ast.fix_missing_locations(fn)
+    return fn
+
+
+def _blocks(node):
+    """All statement lists below a node (bodies, else-branches, handlers)."""
+    out = []
+    for n in ast.walk(node):
+        for f in ("body", "orelse", "finalbody"):
+            b = getattr(n, f, None)
+            if isinstance(b, list) and b and isinstance(b[0], ast.stmt):
+                out.append(b)
+    return out
